@@ -816,6 +816,8 @@ pub trait BumpOps {
     fn as_scope_ops(&mut self, through_bump: bool) -> &mut dyn ScopeOps;
     fn reset(&mut self);
     fn reset_to_start(&mut self);
+    /// Bump::into_raw followed by Bump::from_raw
+    fn raw_roundtrip(self: Box<Self>) -> Box<dyn BumpOps>;
     /// Bump::with_settings::<NewS>() with NewS = (ma, ga); Err(message) if the conversion panicked (the Bump is gone then)
     fn with_settings(self: Box<Self>, ma: usize, ga: bool) -> Result<Box<dyn BumpOps>, String>;
 }
@@ -834,6 +836,10 @@ where
     }
     fn reset_to_start(&mut self) {
         Bump::reset_to_start(self);
+    }
+    fn raw_roundtrip(self: Box<Self>) -> Box<dyn BumpOps> {
+        let raw = (*self).into_raw();
+        Box::new(unsafe { Self::from_raw(raw) })
     }
     fn with_settings(self: Box<Self>, ma: usize, ga: bool) -> Result<Box<dyn BumpOps>, String> {
         let this = *self;
